@@ -81,7 +81,7 @@ def enum_jobs(tier):
 def sys_jobs(hs, tier):
     q = tier == "quick"
     sj = [wmmlib.sys_job(hs, "sys", 0, 2, "l1"), wmmlib.sys_job(hs, "sys", 0, 3, "l1,l2"), wmmlib.sys_job(hs, "sys", 0, 2, "l1,l2,l3,l4,l5"),
-          wmmlib.sys_job(hs, "sysbd", 0, 2, "l1,l2,l3,l4,l5"), wmmlib.sys_job(hs, "sys", 1, 1, "l1", "l1")]
+          wmmlib.sys_job(hs, "sysbd", 0, 2, "l1,l2,l3,l4,l5"), wmmlib.sys_job(hs, "sys", 1, 1, "l1", "l1"), wmmlib.sys_job(hs, "sys", 1, 1, "r,x0", "r")]
     if not q:
         sj += [wmmlib.sys_job(hs, "sys", 0, 3, "l1,l2,l3,l4,l5", deadline=1500), wmmlib.sys_job(hs, "sys", 1, 2, "l1", "l1", deadline=1500),
                wmmlib.sys_job(hs, "sys", 0, 1, "l1", "l1", deadline=1500), wmmlib.sys_job(hs, "sys", 1, 1, "l1,l2", "l1", deadline=1500),
